@@ -34,10 +34,10 @@ Definition check (c : case) : bool :=
   | CMSolveM r c d sr sc sd e =>
       fout_eqb (opt_out (option_map mat_out (mat_solve_mat FO0 (mk r c d) (mk sr sc sd)))) e
   | CMInv r c d e => fout_eqb (opt_out (option_map mat_out (mat_inv FO0 (mk r c d)))) e
-  | CIsSym a e => fout_eqb (opt_out (option_map b2f (is_symmetric_rel FO0 a))) e
-  | CIsPD a e => fout_eqb (opt_out (option_map b2f (is_pd_pred FO0 a))) e
+  | CIsSym a e => fout_eqb (opt_out (option_map b2f (is_symmetric FO0 a))) e
+  | CIsPD a e => fout_eqb (opt_out (option_map b2f (is_positive_definite FO0 a))) e
   | CRowToCol a rows e => fout_eqb (opt_out (row_to_col_major FO0 a rows)) e
   | CColToRow a rows e => fout_eqb (opt_out (col_to_row_major FO0 a rows)) e
   | CTryChol a e => fout_eqb (opt_out (option_map tc_out (try_cholesky FO0 a))) e
-  | CChol a e => fout_eqb (opt_out (cholesky_checked FO0 a)) e
+  | CChol a e => fout_eqb (opt_out (cholesky FO0 a)) e
   end.
